@@ -205,7 +205,35 @@ OnWild ==
        /\ (k = "reject" => (~Ev.rust /\ ~Ev.cabi))
   /\ UNCHANGED <<sc, up, tracker, nextId, conn, pend, evp, db, exp, cur>> /\ Step
 
-TraceNext == OnWildCfg \/ OnWild \/ OnCfg \/ OnListening \/ OnInfo \/ OnConnecting \/ OnFilter \/ OnTrack \/ OnConnected \/ OnUntrack
+(***************************************************************************)
+(* C09 client role: the rodbus TLS client against a rustls server of the   *)
+(* harness that presents a fixture certificate and pinned versions.  The   *)
+(* client reaches Connected iff Admit(..) says so (expected server name    *)
+(* included), at the highest common version, and only then Modbus flows.   *)
+(* A peer that accepts TCP and never starts the handshake must not wedge   *)
+(* the task (C07 / C10 / C13): requests still fail, shutdown is honoured.  *)
+(***************************************************************************)
+OnTlscCfg ==
+  /\ Is("tlsc_cfg") /\ exp = <<>>
+  /\ sc' = [NoSc EXCEPT !.variant = "tls_client", !.mode = Ev.mode, !.min = IF Ev.min_tls = "1.3" THEN 13 ELSE 12,
+                        !.trust = Ev.trust, !.policy = Ev.name]
+  /\ UNCHANGED <<up, tracker, nextId, conn, pend, evp, db, exp, cur>> /\ Step
+OnCState == Is("cstate") /\ UNCHANGED <<sc, up, tracker, nextId, conn, pend, evp, db, exp, cur>> /\ Step
+OnTlsc ==
+  /\ Is("tlsc") /\ sc.variant = "tls_client"
+  /\ LET peer == [cert |-> Ev.cert, versions |-> {IF Ev.versions[i] = "1.3" THEN 13 ELSE 12 : i \in 1..Len(Ev.versions)}]
+         a == Admit([mode |-> sc.mode, min |-> sc.min, authz |-> FALSE, trust |-> sc.trust, name |-> sc.policy], peer)
+     IN IF a.ok
+        THEN /\ Ev.outcome = "connected" /\ Ev.version = (IF a.version = 13 THEN "1.3" ELSE "1.2")
+             /\ Ev.modbus = "ok9"
+        ELSE Ev.outcome = "failed" /\ Ev.modbus = "none"
+  /\ UNCHANGED <<sc, up, tracker, nextId, conn, pend, evp, db, exp, cur>> /\ Step
+OnTlscStall ==
+  /\ Is("tlsc_stall")
+  /\ Ev.request_completed /\ Ev.request_result # "Ok" /\ Ev.task_ended_after_shutdown
+  /\ UNCHANGED <<sc, up, tracker, nextId, conn, pend, evp, db, exp, cur>> /\ Step
+
+TraceNext == OnTlscCfg \/ OnCState \/ OnTlsc \/ OnTlscStall \/ OnWildCfg \/ OnWild \/ OnCfg \/ OnListening \/ OnInfo \/ OnConnecting \/ OnFilter \/ OnTrack \/ OnConnected \/ OnUntrack
              \/ OnTls \/ OnReq \/ OnReads \/ OnWrite \/ OnAuth \/ OnRsp \/ OnClose \/ OnSend \/ OnPartial
              \/ OnPeerView \/ OnCmd
 
